@@ -84,6 +84,12 @@ def run(ck, P):
         ok = f.name in table.get(ev.callee, set())
         ck.ob("C20.2-WHO-OPENS", f.site("%s()" % ev.callee), ok, "%s at line %d in %s" % (ev.callee, ev.line, f.name) + ("" if ok else ": descriptor created outside the pairing table (who closes it?)"))
     ck.need(nop >= 8, "descriptor-creating call sites shrank to %d" % nop)
+    cf = P.fn("m_ctx_fd")
+    dfd = [e for e in cf.calls("dup")]
+    exf = rules.Expander(cf, stable=False)
+    rets = [exf.at(e, e.e) for e in cf.events() if e.kind == "ret" and cval(e.e) is None]
+    ck.ob("C20.2-WHO-OPENS", cf.site("dup handed to the user"), len(dfd) == 1 and len(rets) == 1 and rets[0].startswith("dup(poll_get_fd("),
+          "m_ctx_fd duplicates the poll handle %d time(s) and returns %s" % (len(dfd), rets))
     cp = P.fn("create_priv_fd")
     helpers = {"create_timerfd", "create_signalfd", "create_inotifyfd", "create_pidfd", "create_eventfd"}
     okc = all({e.fn.name for e in P.calls_to(h)} == {"create_priv_fd"} for h in helpers)
